@@ -129,6 +129,32 @@ theorem validated_means (env : Env) (hw : EnvWf env) (cfg : Config) (L A : Refdb
       · exact Or.inl hct
       · right; rw [ancestry_ne env hct] at ha; exact ha
 
+/-- **The modelled fetch never panics**: every path of `FetchState::run` that the model covers ends in
+`Success`, `Failed` or `Err`. (The last panic site on that path, the `expect` on the canonical `rad/id` in
+`CanonicalId::prepare_updates`, was repaired in /repo: 53845ef. The harness reports any panic of the real
+code as the oracle violation `fetch-panic`.) -/
+theorem fetch_no_panic (env : Env) (cfg : Config) (L A : Refdb) : (fetch env cfg L A).1 ≠ .panic := by
+  unfold fetch
+  split
+  · intro h; cases h
+  · split
+    · intro h; cases h
+    · simp only
+      split
+      · intro h; cases h
+      · split
+        · intro h; cases h
+        · split
+          · intro h; cases h
+          · split
+            · split <;> (intro h; cases h)
+            · intro h; cases h
+
+/-- A serving peer that does not advertise the canonical `refs/rad/id`: error, nothing applied. -/
+example (env : Env) (cfg : Config) (L A : Refdb) (h : cfg.advDoc = none) :
+    fetch env cfg L A = (.error, L) := by
+  unfold fetch; rw [h]
+
 /-! ## The full-strength first sentence is false of the current code (known finding) -/
 
 namespace Witness
